@@ -228,6 +228,10 @@ func (u *upstream) getClient(addr string) (*client, error) {
 	}
 	c, err := u.createClient(addr)
 	call.res, call.err = c, err
+	// The call only deduplicates concurrent attempts. Forget it once it is
+	// finished, otherwise its result (an error, or a client which has exited
+	// since) would be handed out forever and the backend never reconnected.
+	u.createClientCalls.Delete(addr)
 	close(call.done)
 	return c, err
 }
